@@ -1,3 +1,1 @@
--- This module serves as the root of the `TvCore` library.
--- Import modules here that should be built as part of the library.
-import TvCore.Basic
+import TvCore.Model.Link
